@@ -470,9 +470,19 @@ impl FileMetaStore {
     ) -> Result<(), Error> {
         if key == HARD_STATE_KEY {
             let hard_state_path = self.data_dir.join(HARD_STATE_FILE_NAME);
+            #[cfg(d_engine_verif)]
+            let verif_path = self.data_dir.clone();
+            #[cfg(d_engine_verif)]
+            d_engine_core::verif::point("meta_save:before", Some(&verif_path), 0, 0);
             let mut file = File::create(hard_state_path)?;
+            #[cfg(d_engine_verif)]
+            d_engine_core::verif::point("meta_save:after_create", Some(&verif_path), 0, 0);
             file.write_all(value)?;
+            #[cfg(d_engine_verif)]
+            d_engine_core::verif::point("meta_save:after_write", Some(&verif_path), value.len() as u64, 0);
             file.flush()?;
+            #[cfg(d_engine_verif)]
+            d_engine_core::verif::point("meta_save:after_flush", Some(&verif_path), 0, 0);
         }
 
         Ok(())
